@@ -202,9 +202,21 @@ LoadSlots(Te, c1, items, env, i, acc) ==
 
 SlotAcc == [vs |-> <<>>, err |-> "", dv |-> {}, fv |-> {}]
 
+\* std::vector<bool> and std::bitset read every element into ONE temporary `bool value = false` and then store the
+\* temporary unconditionally: an element that is not loaded (null) stores what the previous element left there.
+RECURSIVE CarryBools(_, _, _, _)
+CarryBools(items, i, carry, acc) ==
+  IF i > Len(items) THEN acc
+  ELSE IF items[i][1] = "b" THEN CarryBools(items, i + 1, items[i][2], Append(acc, items[i]))
+  ELSE IF items[i][1] = "null" THEN CarryBools(items, i + 1, carry, Append(acc, <<"b", carry>>))
+  ELSE CarryBools(items, i + 1, carry, Append(acc, items[i]))
+RECURSIVE BoolCarry(_, _, _)
+BoolCarry(items, i, carry) == IF i > Len(items) THEN carry ELSE BoolCarry(items, i + 1, IF items[i][1] = "b" THEN items[i][2] ELSE carry)
+
 \* Detail::SerializeContainer and its copies (vector<bool>, forward_list, valarray, adaptors)
-SeqLoad(kind, Te, cur, items, env) ==
-  LET p == IF kind = "valarray" THEN <<>> ELSE cur[2]          \* valarray loads through a temporary std::vector
+SeqLoad(kind, Te, cur, items0, env) ==
+  LET items == IF Te = <<"bool">> THEN CarryBools(items0, 1, FALSE, <<>>) ELSE items0
+      p == IF kind = "valarray" THEN <<>> ELSE cur[2]          \* valarray loads through a temporary std::vector
       n == Len(items)
       e == EstOf(env.est, n)
       \* step 1: pre-size when the archive reports a size; forward_list seeds one element when it is empty
@@ -229,7 +241,7 @@ FixLoad(n, Te, cur, items, env) ==
 \* std::bitset<n>: n unconditional reads
 BitsetLoad(n, cur, items, env) ==
   IF Len(items) < n THEN (IF env.arch = "xml" /\ DevXmlOver \in env.devs THEN Err(Crash, {DevXmlOver}) ELSE Err(OutOfRange, {}))
-  ELSE LET ld == LoadSlots(<<"bool">>, cur[2], SubSeq(items, 1, n), Nested(env), 1, SlotAcc)
+  ELSE LET ld == LoadSlots(<<"bool">>, cur[2], CarryBools(SubSeq(items, 1, n), 1, FALSE, <<>>), Nested(env), 1, SlotAcc)
        IN IF ld.err # "" THEN Fv(Err(ld.err, ld.dv), ld.fv) ELSE Fv(Ok(<<"seq", ld.vs>>, ld.dv), ld.fv)
 
 \* std::tuple: one read per member, each into the existing member
